@@ -7,4 +7,4 @@ go build ./...
 out=$(go test -vet=off -count=1 ./... 2>&1) || { echo "$out" | grep -v "no test files"; echo "TESTS FAILED — not committed"; exit 1; }
 echo "$out" | grep -v "no test files"
 git commit -qa -F "$1"
-git log --oneline | head -1
+git log --oneline -n1
